@@ -11,6 +11,7 @@ mod world;
 mod camp;
 mod camp_single;
 mod camp_conc;
+mod camp_fault;
 mod conc;
 mod mon_dg;
 mod mon;
